@@ -202,6 +202,22 @@ fn parse_all_rec(alpha: &[char], k: usize, cur: &mut String, h: &mut u64) {
     }
 }
 
+/// `parsecp START END` — hash of the parse results of four template texts around every scalar value c in
+/// [START, END): `혀c엉.` (is c a syllable of the word?), `형c형` (white space / line break: location of the
+/// second command), `형.c.` (dot, area character or ignored?), `c형c` (c as a command start / before a command)
+pub fn parse_cp_op(start: &str, end: &str) -> String {
+    let (a, b): (u32, u32) = (start.parse().unwrap(), end.parse().unwrap());
+    let mut h = 14695981039346656037u64;
+    for v in a..b {
+        if let Some(c) = std::char::from_u32(v) {
+            for t in [format!("혀{}엉.", c), format!("형{}형", c), format!("형.{}.", c), format!("{}형{}", c, c)].iter() {
+                h = fnv(h, &enc_parsed(&parse::parse(t.clone())));
+            }
+        }
+    }
+    format!("{:x}", h)
+}
+
 /// `parseall ALPHABET N PREFIX` — hash of the parse results of all strings PREFIX ++ w, |w| = N
 pub fn parse_all_op(alpha: &str, n: &str, prefix: &str) -> String {
     let alpha: Vec<char> = dec_text(alpha).chars().collect();
